@@ -498,24 +498,43 @@ func (h *harness) checkCase(vc *vcase, checks map[string]bool) {
 			c.Fail("correspondence", "C03:corr:enc:"+kindsOf(vc), "real reader over the model's encoding differs from the input: "+d, vc.replay("enc"))
 		}
 	}
-	// vec (oracle)
+	// vec (oracle) + vecm (T2: model loader / materializer over the real columns)
 	if checks["vec"] {
 		known := feat["enum"] || feat["null-union"] || feat["error-under-null"]
 		if known && !checks["vec-known"] {
 			c.Stat("vec:skipped(known-broken feature)")
 		} else {
 			c.Stat("vec:cases")
-			o, _ := h.pathOutcome(vc, "vec")
+			o, rows := h.pathOutcome(vc, "vec")
 			if o != "" {
 				// confirm (a dying worker can answer with half-loaded vectors)
 				o2, _ := h.pathOutcome(vc, "vec")
 				if o2 == "" {
 					c.Stat("vec:unconfirmed")
+					o = ""
 				} else {
 					if outcomeClass(o2) == "crash" || outcomeClass(o2) == "panic" {
 						o = o2
 					}
 					h.reportPath(vc, "vec", o)
+				}
+			}
+			if resp.DumpErr == "" && resp.Dump != "" {
+				c.Res.ModelCases++
+				mv := m.Call("(C03 vec (paths) " + resp.Dump + ")")
+				switch {
+				case o == "" && rows != nil && mv == modelOf(rows):
+					c.Stat("vecm:agrees")
+				case o == "" && len(vc.Seq) > 0:
+					c.Fail("correspondence", "C03:corr:vec:"+kindsOf(vc), fmt.Sprintf("model vector path differs from the real one over the same columns: model=%s real=%s", trunc(mv, 300), trunc(modelOf(rows), 300)), vc.replay("vec"))
+				case o == "":
+					c.Stat("vecm:agrees")
+				case mv == "fail":
+					c.Stat("vecm:both-fail")
+				case known || vecClass(vc, o) != "other-"+outcomeClass(o):
+					c.Stat("vecm:real-fails-model-does-not(known class)")
+				default:
+					c.Stat("vecm:real-fails-model-does-not")
 				}
 			}
 		}
